@@ -14,7 +14,8 @@ ANCHORS = ['bip85:BIP85DeterministicEntropy.entropy', 'bip85:BIP85DeterministicE
 RULE = ("masters: random + boundary scalars; ALL 5 word counts, ALL 49 byte counts 16..64, ALL 67 password lengths 20..86 "
         "(exhaustive) x indexes {0, 1, 2^31-1, random}; WIF and XPRV x same indexes; rejection on both sides of every bound "
         "(word counts, bytes 15/65, length 19/87, index -1, -2^31, 2^31, 2^32, floats, None); the index_list handed to "
-        "derive_path is recorded for every call; distinct = distinct (monitor, case) digests")
+        "derive_path is recorded for every call; distinct = distinct (monitor, case) digests"
+        " EXTENSIONS: + a warm helper object of another master re-pointed at this master, fractional / non-int indexes, colliding parameters across applications")
 LEVEL_TEXT = ("Every BIP85 output of the real API is compared with the reference BIP85 (own HMAC, own BIP32/BIP39/Base64); "
               "a probe on derive_path records the exact index list used by each call, which must be the application's fully "
               "hardened path, and the (application, parameter, index)->path map is checked injective over the whole run; "
@@ -100,6 +101,20 @@ _PATHMAP = {}
 def judge_output(ctx, case, tap):
     xk, b85, node = mk(case)
     app, param, index = case["app"], case.get("param"), case["index"]
+    if case.get("repoint"):
+        # a WARM helper object of another master (it has served every application once) is pointed at this master by
+        # assigning its public attribute - what it answers from then on belongs to the master it now holds
+        from btc_hd_wallet.bip85 import BIP85DeterministicEntropy
+        other = rb32.XKey((case["k"] % (rb32.secp.N - 2)) + 1, None, case["c"][::-1])
+        donor = BIP85DeterministicEntropy(master_node=bridge.mk_node(other, case.get("mnet", False), "ctor"), testnet=case.get("mnet", False))
+        for a_, p_ in (("wif", None), ("xprv", None), ("hex", 32), ("pwd", 21), ("mnemonic", 12), (app, param)):
+            try:
+                call(donor, a_, p_, 0)
+                call(donor, a_, p_, index if isinstance(index, int) and 0 <= index < H else 1)
+            except Exception:  # noqa
+                pass
+        donor.master_node = node
+        b85 = donor
     try:
         want, want_path = expected(xk, app, param, index)
     except rb32.InvalidChild:
@@ -198,7 +213,7 @@ def run(ctx):
             c = gen_master(rnd)
             app = rnd.choice(["mnemonic", "wif", "xprv", "hex", "pwd"])
             param = {"mnemonic": rnd.choice([12, 15, 18, 21, 24]), "hex": rnd.randrange(16, 65), "pwd": rnd.randrange(20, 87)}.get(app)
-            c.update({"app": app, "param": param, "index": rnd.choice(idx_set(rnd))})
+            c.update({"app": app, "param": param, "index": rnd.choice(idx_set(rnd)), "repoint": rnd.random() < 0.15})
             judge_output(ctx, c, tap)
         # ---- same object, random order, parameters that collide across applications (hex N <-> pwd N <-> words N, same index)
         for _ in range(ctx.scale(24, 3000)):
